@@ -16,6 +16,7 @@ RULE = ("generated (d=1..4, 1<=lmin<=lmax, lmax-lmin<=4, box kind in unit/shifte
         "configurations, <=32 sampled otherwise), 4 random combinations]. plus object-reuse histories: the same StandardCombi object is first run on other levels and read through its read-only helpers (print_subspaces / print_resulting_combi_scheme / print_resulting_sparsegrid / plot / get_total_num_points / __call__ / get_points_and_weights / check_combi_scheme) before the observed perform_operation. distinct = (d,lmin,lmax,boundary,box digest); "
         "non-trivial = lmax>lmin and d>=2")
 RULE += (" A further generator builds a MixedGrid of 1-D trapezoidal grids with per-dimension boundary flags (point, count, coefficient and integration clauses only).")
+RULE += (" The domain, evaluation points and tensor-grid axes are also handed over as lists, tuples, python ints and integer-typed arrays (integer boxes).")
 REQUIRED = ["bitwise_nested", "scheme_coefficients", "points_on_dyadic_grid", "union_is_sparse_grid", "coefficient_sum_per_point",
             "reported_count_matches_points", "nodal_reproduction_call", "nodal_reproduction_grid", "hat_integral_exact",
             "hat_interpolation_exact"]
@@ -39,8 +40,15 @@ def gen(rng):
     lmin = rng.choice([1, 1, 2, 2, 3])
     lmin = min(lmin, cap - 1)
     lmax = min(cap, lmin + rng.choice([0, 1, 1, 2, 2, 3, 4]))
-    kind, a, b = hooks.gen_box(rng, d)
-    return {"d": d, "lmin": lmin, "lmax": lmax, "a": a, "b": b, "box": kind, "boundary": rng.random() < 0.5}
+    kind, a, b = hooks.gen_box(rng, d, ["unit", "unit", "shifted", "negative", "aniso", "tiny", "huge", "dyadic", "integer"])
+    if rng.random() < 0.12:
+        kind, a, b = hooks.gen_box(rng, d, ["integer"])
+        if d >= 2 and rng.random() < 0.6:
+            # one long and one short edge: some tensor-grid axes consist of whole numbers only, others do not
+            k0, k1 = rng.sample(range(d), 2)
+            b[k0], b[k1] = a[k0] + 8.0, a[k1] + 1.0
+    mode = rng.choice(hooks.INPUT_MODES) if (kind == "integer" or rng.random() < 0.15) else "float_array"
+    return {"d": d, "lmin": lmin, "lmax": lmax, "a": a, "b": b, "box": kind, "boundary": rng.random() < 0.5, "input_mode": mode}
 
 
 def prelude(rng, combi, cfg, res):
@@ -97,6 +105,11 @@ def run_case(case, res):
         bfl = [boundary] * d
     a, b = np.array(cfg["a"]), np.array(cfg["b"])
     width = b - a
+    mode = cfg["input_mode"]
+    # what the library is given: the same numbers as float arrays (default), lists, tuples, python ints or integer-typed arrays
+    A, B = hooks.typed(cfg["a"], mode), hooks.typed(cfg["b"], mode)
+    if mode != "float_array":
+        res.count("domain_given_as_" + mode)
     I = rm.standard_index_set(d, lmin, lmax)
     # hat components
     all_hats = []
@@ -130,9 +143,9 @@ def run_case(case, res):
         grid = MixedGrid(a=a, b=b, grids=[TrapezoidalGrid1D(a=a[k], b=b[k], boundary=bfl[k]) for k in range(d)])
         res.count("mixed_boundary_flags")
     else:
-        grid = TrapezoidalGrid(a=a, b=b, boundary=boundary)
+        grid = TrapezoidalGrid(a=A, b=B, boundary=boundary)
     op = Integration(f=f, grid=grid, dim=d, print_level=100, log_level=100)
-    combi = StandardCombi(a, b, operation=op, print_output=False, log_level=100, print_level=100)
+    combi = StandardCombi(A, B, operation=op, print_output=False, log_level=100, print_level=100)
     if case["gen"] == "reuse":
         prelude(rng, combi, cfg, res)
     scheme, err, result = combi.perform_operation(lmin, lmax)
@@ -193,7 +206,10 @@ def run_case(case, res):
     cond = max(max(abs(a[k]), abs(b[k])) / (width[k] / 2 ** finest) for k in range(d))
     itol = (1e-12 + 4e-16 * cond)
     if P and not mixed:   # interpolation on mixed-boundary grids is outside the sparse-grid interpolant (zero / non-zero boundary mix)
-        vals = np.asarray(combi(P))
+        Pg = P
+        if mode in ("int_list", "int_tuple", "int_array"):
+            Pg = [tuple(int(x) if float(x).is_integer() else x for x in p) for p in P]
+        vals = np.asarray(combi(Pg))
         exp = np.array([f.eval(p) for p in P])
         scale = max(1.0, float(np.max(np.abs(exp)))) * nsch
         res.close("nodal_reproduction_call", vals[:, 0], exp[:, 0], 10 * itol * scale, "standard_not_nodal_call",
@@ -203,7 +219,12 @@ def run_case(case, res):
     tl = [lmin] * d
     tcoords = [list(axes[k][rm.dyadic_component_indices(lmin, finest, bfl[k])]) for k in range(d)]
     if all(len(t) > 0 for t in tcoords) and not mixed:
-        tv = np.asarray(combi.interpolate_grid(tcoords))
+        tgiven = tcoords
+        if mode != "float_array":
+            # per axis: whole-number coordinates as python ints / an integer array, the others as floats (list, tuple or array)
+            tgiven = [hooks.typed(t, mode) for t in tcoords]
+            res.count("interpolate_grid_axes_typed")
+        tv = np.asarray(combi.interpolate_grid(tgiven))
         tp = list(itertools.product(*tcoords))
         exp = np.array([f.eval(tuple(float(x) for x in p)) for p in tp])
         scale = max(1.0, float(np.max(np.abs(exp)))) * nsch
